@@ -225,6 +225,13 @@ theorem plain_new (s : Bytes) :
     eval parse canon { params := [.sval s] } (bodyOf newType "From for __type::from") = some (.txt s) := by
   refine ⟨?_, ?_, ?_⟩ <;> simp [bodyOf, methodOf, newType, eval, proj, onText]
 
+/-- the hand-written `AsRef<str>` impls for new-types (today: `Scope`) return a view of the WHOLE wrapped text — every
+translator and every model reads `.as_ref()` of such a value as the value's text -/
+theorem plain_as_ref :
+    (asRefImpls.map (·.1)).Perm ["Scope"] ∧
+    (asRefImpls.all fun i => decide (i.2 = Tm.selfVal) || decide (i.2 = Tm.proj Tm.selfVal 0)) = true := by
+  constructor <;> decide
+
 end GenTypes
 
 #print axioms GenTypes.url_methods
@@ -248,3 +255,4 @@ end GenTypes
 #print axioms GenTypes.secret_hash
 #print axioms GenTypes.plain_methods
 #print axioms GenTypes.plain_new
+#print axioms GenTypes.plain_as_ref
